@@ -42,19 +42,6 @@ Proof.
 Qed.
 Print Assumptions stop_on_execute_refuted.
 
-(* Without a WaitDelay, a descendant that has LEFT the group and holds the output pipes keeps Execute in Wait although the
-   whole group is dead (the property does not ask for its death, but does ask for the return): known finding. *)
-Theorem outside_holder_refuted : exists t sched,
-  let s := run G (init SExecute KCtx t) sched in
-  terminal G s /\ fired s = true /\ no_ingroup_alive (tbl s) = true /\ ~ good s.
-Proof.
-  exists away_tree, [LMain; LMain; LProc 0; LUser; LWatch; LRunWatch; LMain; LMon; LMon].
-  cbv zeta. repeat split; try (vm_compute; reflexivity).
-  - intros l; destruct l; try (vm_compute; reflexivity). destruct i as [|[|[|i]]]; vm_compute; reflexivity.
-  - intros (_ & C & _). vm_compute in C. discriminate.
-Qed.
-Print Assumptions outside_holder_refuted.
-
 (* Runs that are not cancelled are not cut short: since the source sets no WaitDelay, Run (Execute) leaves Wait only when
    no live process holds the output pipes — it waits for a descendant that is still writing. *)
 Theorem run_waits_for_pipes : forall s s', mainpc s = M3 -> step G s LMain = Some s' -> no_holder (tbl s) = true.
@@ -81,6 +68,19 @@ Print Assumptions cancel_kills_group.
    isRunning; Execute holds the lock for the whole run and maintains isRunning; the monitor calls stop() on context end *)
 Example generated_facts_ok : facts_ok G = true.
 Proof. vm_compute. reflexivity. Qed.
+
+(* Without a WaitDelay, a descendant that has LEFT the group and holds the output pipes keeps Execute in Wait although the
+   whole group is dead (the property does not ask for its death, but does ask for the return): known finding. *)
+Theorem outside_holder_refuted : exists t sched,
+  let s := run G (init SExecute KCtx t) sched in
+  terminal G s /\ fired s = true /\ no_ingroup_alive (tbl s) = true /\ ~ good s.
+Proof.
+  exists away_tree, [LMain; LMain; LProc 0; LUser; LWatch; LRunWatch; LMain; LMon; LMon].
+  cbv zeta. repeat split; try (vm_compute; reflexivity).
+  - intros l; destruct l; try (vm_compute; reflexivity). destruct i as [|[|[|i]]]; vm_compute; reflexivity.
+  - intros (_ & C & _). vm_compute in C. discriminate.
+Qed.
+Print Assumptions outside_holder_refuted.
 
 (* The exception is exactly: *)
 Example supported_table : map (fun sm => map (supported sm) [KCtx; KDeadline; KCancel; KStop; KRestart]) [SExecute; SStart; SSupervisor]
